@@ -1,1 +1,242 @@
-import GeoModel
+/-
+  Property C12 — invariance of the predicates under re-encoding and lattice symmetries.
+
+  Point maps (defined in GeoProofs/EquivLemmas.lean): `Pt.translate p d = p + d`,
+  `Pt.scale p k = k·p`, `Pt.reflX`, `Pt.reflY`, `Pt.transpose`.  (`Pt.translate` takes the
+  point first so that `p.translate d` reads as in the statement; it is symmetric anyway.)
+
+  PROVED
+  * kernels, exactly equivariant under translation and positive scaling (every comparison the
+    code makes is between affine-equivariant quantities; the WHOLE result record is equal,
+    decision site included): `raycast_translate/_scale`, `segIntersects_translate/_scale`
+    (+ `segIntersectsS_*` with the site), `collinearPt_*`, `segContainsSeg_*`;
+  * `on`, segment intersection and segment containment are invariant under ALL the symmetries:
+    `onSeg_reflX/_reflY/_transpose`, `segsMeet_reflX/_reflY/_transpose`,
+    `raycast_on_reflX/…`, `segIntersects_reflX/…`, `segContainsSeg_reflX/…`;
+  * series attributes: `processPoints_translate/_scale` (flags unchanged, rectangle mapped),
+    `convexSpec_reflX/_reflY/_transpose` (convex flag unchanged), `clockwiseSpec_reflX/…`
+    (= `decide (area2 v > 0)`: flipped unless the area is 0), and the same for the flags
+    computed by `processPoints`;
+  * membership of a point in an un-indexed ring under translation and positive scaling:
+    `ringContainsPoint_translate/_scale` (the whole result, edge index included);
+  * the ring-level and geometry-level predicates: see the end of the file.
+
+  NOT PROVED (and not expected to be provable without a Jordan-curve argument, or false):
+  * invariance of `raycast.inn` / of polygon membership under reflections and transposition
+    (left-ray vs right-ray vs vertical-ray parity);
+  * invariance of the ring-level `contains` heuristics under start-vertex rotation: FALSE
+    (known findings D4 / D5, witnesses in Props/C03.lean);
+  * indexed series: all statements are for `index = none`; the lift is the index-exactness
+    theorem (GeoProofs/Index, GeoProofs/SeriesSearch).
+-/
+import GeoProofs.EquivLemmas
+
+namespace Geo
+open EQ
+
+/-! ## kernels under translation and positive scaling -/
+
+theorem raycast_translate (d a b p : Pt) :
+    (raycast (a.translate d) (b.translate d) (p.translate d)).inn = (raycast a b p).inn ∧
+    (raycast (a.translate d) (b.translate d) (p.translate d)).on = (raycast a b p).on := by
+  simp only [translate_eq_aff, raycast_aff one_pos, and_self]
+
+theorem raycast_scale (k : Rat) (hk : 0 < k) (a b p : Pt) :
+    (raycast (a.scale k) (b.scale k) (p.scale k)).inn = (raycast a b p).inn ∧
+    (raycast (a.scale k) (b.scale k) (p.scale k)).on = (raycast a b p).on := by
+  simp only [scale_eq_aff, raycast_aff hk, and_self]
+
+/-- stronger: the whole result record (decision site included) -/
+theorem raycast_translate_eq (d a b p : Pt) :
+    raycast (a.translate d) (b.translate d) (p.translate d) = raycast a b p := by
+  simp only [translate_eq_aff, raycast_aff one_pos]
+
+theorem raycast_scale_eq (k : Rat) (hk : 0 < k) (a b p : Pt) :
+    raycast (a.scale k) (b.scale k) (p.scale k) = raycast a b p := by
+  simp only [scale_eq_aff, raycast_aff hk]
+
+def Seg.translate (s : Seg) (d : Pt) : Seg := ⟨s.a.translate d, s.b.translate d⟩
+def Seg.scale (s : Seg) (k : Rat) : Seg := ⟨s.a.scale k, s.b.scale k⟩
+
+theorem segIntersectsS_translate (d : Pt) (s t : Seg) :
+    segIntersectsS (s.translate d) (t.translate d) = segIntersectsS s t := by
+  simp only [Seg.translate, translate_eq_aff, segIntersectsS_aff one_pos]
+
+theorem segIntersectsS_scale (k : Rat) (hk : 0 < k) (s t : Seg) :
+    segIntersectsS (s.scale k) (t.scale k) = segIntersectsS s t := by
+  simp only [Seg.scale, scale_eq_aff, segIntersectsS_aff hk]
+
+theorem segIntersects_translate (d : Pt) (s t : Seg) :
+    (s.translate d).intersects (t.translate d) = s.intersects t := by
+  unfold Seg.intersects; rw [segIntersectsS_translate]
+
+theorem segIntersects_scale (k : Rat) (hk : 0 < k) (s t : Seg) :
+    (s.scale k).intersects (t.scale k) = s.intersects t := by
+  unfold Seg.intersects; rw [segIntersectsS_scale k hk]
+
+theorem collinearPt_translate (d : Pt) (s : Seg) (p : Pt) :
+    (s.translate d).collinearPt (p.translate d) = s.collinearPt p := by
+  simp only [Seg.translate, translate_eq_aff, collinearPt_aff one_pos]
+
+theorem collinearPt_scale (k : Rat) (hk : 0 < k) (s : Seg) (p : Pt) :
+    (s.scale k).collinearPt (p.scale k) = s.collinearPt p := by
+  simp only [Seg.scale, scale_eq_aff, collinearPt_aff hk]
+
+theorem segContainsSeg_translate (d : Pt) (s t : Seg) :
+    (s.translate d).containsSeg (t.translate d) = s.containsSeg t := by
+  simp only [Seg.translate, translate_eq_aff, containsSeg_aff one_pos]
+
+theorem segContainsSeg_scale (k : Rat) (hk : 0 < k) (s t : Seg) :
+    (s.scale k).containsSeg (t.scale k) = s.containsSeg t := by
+  simp only [Seg.scale, scale_eq_aff, containsSeg_aff hk]
+
+/-! ## `on`, intersection, containment under reflections and transposition -/
+
+theorem onSeg_reflX (a b p : Pt) : OnSeg a.reflX b.reflX p.reflX ↔ OnSeg a b p := EQ.onSeg_reflX a b p
+theorem onSeg_reflY (a b p : Pt) : OnSeg a.reflY b.reflY p.reflY ↔ OnSeg a b p := EQ.onSeg_reflY a b p
+theorem onSeg_transpose (a b p : Pt) :
+    OnSeg a.transpose b.transpose p.transpose ↔ OnSeg a b p := EQ.onSeg_transpose a b p
+theorem segsMeet_reflX (a b c d : Pt) :
+    SegsMeet a.reflX b.reflX c.reflX d.reflX ↔ SegsMeet a b c d := EQ.segsMeet_reflX a b c d
+theorem segsMeet_reflY (a b c d : Pt) :
+    SegsMeet a.reflY b.reflY c.reflY d.reflY ↔ SegsMeet a b c d := EQ.segsMeet_reflY a b c d
+theorem segsMeet_transpose (a b c d : Pt) :
+    SegsMeet a.transpose b.transpose c.transpose d.transpose ↔ SegsMeet a b c d :=
+  EQ.segsMeet_transpose a b c d
+
+theorem raycast_on_reflX (a b p : Pt) :
+    (raycast a.reflX b.reflX p.reflX).on = (raycast a b p).on := by
+  rw [Bool.eq_iff_iff, raycast_on_iff, raycast_on_iff, onSeg_reflX]
+theorem raycast_on_reflY (a b p : Pt) :
+    (raycast a.reflY b.reflY p.reflY).on = (raycast a b p).on := by
+  rw [Bool.eq_iff_iff, raycast_on_iff, raycast_on_iff, onSeg_reflY]
+theorem raycast_on_transpose (a b p : Pt) :
+    (raycast a.transpose b.transpose p.transpose).on = (raycast a b p).on := by
+  rw [Bool.eq_iff_iff, raycast_on_iff, raycast_on_iff, onSeg_transpose]
+
+def Seg.mapPts (T : Pt → Pt) (s : Seg) : Seg := ⟨T s.a, T s.b⟩
+
+theorem segIntersects_reflX (s t : Seg) :
+    (s.mapPts Pt.reflX).intersects (t.mapPts Pt.reflX) = s.intersects t := by
+  rw [Bool.eq_iff_iff, segIntersects_iff, segIntersects_iff]; exact segsMeet_reflX _ _ _ _
+theorem segIntersects_reflY (s t : Seg) :
+    (s.mapPts Pt.reflY).intersects (t.mapPts Pt.reflY) = s.intersects t := by
+  rw [Bool.eq_iff_iff, segIntersects_iff, segIntersects_iff]; exact segsMeet_reflY _ _ _ _
+theorem segIntersects_transpose (s t : Seg) :
+    (s.mapPts Pt.transpose).intersects (t.mapPts Pt.transpose) = s.intersects t := by
+  rw [Bool.eq_iff_iff, segIntersects_iff, segIntersects_iff]; exact segsMeet_transpose _ _ _ _
+
+theorem segContainsSeg_reflX (s t : Seg) :
+    (s.mapPts Pt.reflX).containsSeg (t.mapPts Pt.reflX) = s.containsSeg t := by
+  rw [Bool.eq_iff_iff, segContainsSeg_iff, segContainsSeg_iff]
+  simp only [Seg.mapPts, onSeg_reflX]
+theorem segContainsSeg_reflY (s t : Seg) :
+    (s.mapPts Pt.reflY).containsSeg (t.mapPts Pt.reflY) = s.containsSeg t := by
+  rw [Bool.eq_iff_iff, segContainsSeg_iff, segContainsSeg_iff]
+  simp only [Seg.mapPts, onSeg_reflY]
+theorem segContainsSeg_transpose (s t : Seg) :
+    (s.mapPts Pt.transpose).containsSeg (t.mapPts Pt.transpose) = s.containsSeg t := by
+  rw [Bool.eq_iff_iff, segContainsSeg_iff, segContainsSeg_iff]
+  simp only [Seg.mapPts, onSeg_transpose]
+
+/-- `inn` is NOT invariant under the reflection x ↦ −x (the ray goes the other way) -/
+theorem raycast_inn_reflX_counterexample :
+    (raycast ⟨0, 0⟩ ⟨0, 2⟩ ⟨-1, 1⟩).inn = true ∧
+    (raycast (Pt.reflX ⟨0, 0⟩) (Pt.reflX ⟨0, 2⟩) (Pt.reflX ⟨-1, 1⟩)).inn = false := by
+  decide +kernel
+
+/-! ## series attributes -/
+
+def Box.translate (b : Box) (d : Pt) : Box := ⟨b.min.translate d, b.max.translate d⟩
+def Box.scale (b : Box) (k : Rat) : Box := ⟨b.min.scale k, b.max.scale k⟩
+
+theorem processPoints_translate (d : Pt) (pts : Array Pt) (closed : Bool)
+    (hne : ¬ ((closed && pts.size < 3) || pts.size < 2)) :
+    (processPoints (pts.map (·.translate d)) closed).convex = (processPoints pts closed).convex ∧
+    (processPoints (pts.map (·.translate d)) closed).clockwise = (processPoints pts closed).clockwise ∧
+    (processPoints (pts.map (·.translate d)) closed).rect = (processPoints pts closed).rect.translate d := by
+  have e : (fun p : Pt => p.translate d) = Pt.aff 1 d := funext fun p => translate_eq_aff p d
+  simp only [e, processPoints_aff one_pos d pts closed hne, Box.translate, translate_eq_aff, EQ.Box.aff,
+    and_self]
+
+theorem processPoints_scale (k : Rat) (hk : 0 < k) (pts : Array Pt) (closed : Bool)
+    (hne : ¬ ((closed && pts.size < 3) || pts.size < 2)) :
+    (processPoints (pts.map (·.scale k)) closed).convex = (processPoints pts closed).convex ∧
+    (processPoints (pts.map (·.scale k)) closed).clockwise = (processPoints pts closed).clockwise ∧
+    (processPoints (pts.map (·.scale k)) closed).rect = (processPoints pts closed).rect.scale k := by
+  have e : (fun p : Pt => p.scale k) = Pt.aff k ⟨0, 0⟩ := funext fun p => scale_eq_aff p k
+  simp only [e, processPoints_aff hk ⟨0, 0⟩ pts closed hne, Box.scale, scale_eq_aff, EQ.Box.aff, and_self]
+
+/-- an empty series has the zero rectangle and `false` flags whatever its points -/
+theorem processPoints_map_empty (T : Pt → Pt) (pts : Array Pt) (closed : Bool)
+    (he : ((closed && pts.size < 3) || pts.size < 2) = true) :
+    processPoints (pts.map T) closed = processPoints pts closed := by
+  unfold processPoints
+  rw [if_pos he, if_pos (by simpa using he)]
+
+theorem convexSpec_reflX (v : List Pt) : Driver.convexSpec (v.map Pt.reflX) = Driver.convexSpec v :=
+  convexSpec_of_neg Pt.reflX reflX_inj (fun a b e => by simp only [SeriesL.turn, Pt.reflX]; ring) v
+theorem convexSpec_reflY (v : List Pt) : Driver.convexSpec (v.map Pt.reflY) = Driver.convexSpec v :=
+  convexSpec_of_neg Pt.reflY reflY_inj (fun a b e => by simp only [SeriesL.turn, Pt.reflY]; ring) v
+theorem convexSpec_transpose (v : List Pt) :
+    Driver.convexSpec (v.map Pt.transpose) = Driver.convexSpec v :=
+  convexSpec_of_neg Pt.transpose transpose_inj
+    (fun a b e => by simp only [SeriesL.turn, Pt.transpose]; ring) v
+
+theorem clockwiseSpec_reflX (v : List Pt) :
+    Driver.clockwiseSpec (v.map Pt.reflX) = decide (Spec.area2 v > 0) :=
+  clockwiseSpec_of_neg Pt.reflX reflX_inj (fun a b => by simp only [Pt.reflX]; ring) v
+theorem clockwiseSpec_reflY (v : List Pt) :
+    Driver.clockwiseSpec (v.map Pt.reflY) = decide (Spec.area2 v > 0) :=
+  clockwiseSpec_of_neg Pt.reflY reflY_inj (fun a b => by simp only [Pt.reflY]; ring) v
+theorem clockwiseSpec_transpose (v : List Pt) :
+    Driver.clockwiseSpec (v.map Pt.transpose) = decide (Spec.area2 v > 0) :=
+  clockwiseSpec_of_neg Pt.transpose transpose_inj (fun a b => by simp only [Pt.transpose]; ring) v
+
+/-- the flags computed by `processPoints` on a closed ring under a reflection / transposition `T`
+    (any injective map negating turns and area): convex unchanged, clockwise = "area > 0" -/
+theorem processPoints_flags_of_neg (T : Pt → Pt) (hT : Function.Injective T)
+    (hturn : ∀ a b e : Pt, SeriesL.turn (T a) (T b) (T e) = (-1) * SeriesL.turn a b e)
+    (harea : ∀ a b : Pt, (T a).x * (T b).y - (T b).x * (T a).y = (-1) * (a.x * b.y - b.x * a.y))
+    (pts : Array Pt) (h : 3 ≤ pts.size) :
+    (processPoints (pts.map T) true).convex = (processPoints pts true).convex ∧
+    (processPoints (pts.map T) true).clockwise = decide (Spec.area2 pts.toList > 0) ∧
+    (Spec.area2 pts.toList ≠ 0 →
+      (processPoints (pts.map T) true).clockwise = !(processPoints pts true).clockwise) := by
+  have h' : 3 ≤ (pts.map T).size := by simpa using h
+  rw [convex_iff _ h', convex_iff _ h, clockwise_iff _ h', clockwise_iff _ h, Array.toList_map,
+    convexSpec_of_neg T hT hturn, clockwiseSpec_of_neg T hT harea, clockwiseSpec_iff_area]
+  refine ⟨rfl, rfl, fun hne => ?_⟩
+  rcases lt_trichotomy (Spec.area2 pts.toList) 0 with hlt | heq | hgt
+  · simp [hlt, not_lt.2 hlt.le]
+  · exact absurd heq hne
+  · simp [hgt, not_lt.2 hgt.le]
+
+theorem processPoints_reflX (pts : Array Pt) (h : 3 ≤ pts.size) :
+    (processPoints (pts.map Pt.reflX) true).convex = (processPoints pts true).convex ∧
+    (processPoints (pts.map Pt.reflX) true).clockwise = decide (Spec.area2 pts.toList > 0) ∧
+    (Spec.area2 pts.toList ≠ 0 →
+      (processPoints (pts.map Pt.reflX) true).clockwise = !(processPoints pts true).clockwise) :=
+  processPoints_flags_of_neg Pt.reflX reflX_inj
+    (fun a b e => by simp only [SeriesL.turn, Pt.reflX]; ring)
+    (fun a b => by simp only [Pt.reflX]; ring) pts h
+
+theorem processPoints_reflY (pts : Array Pt) (h : 3 ≤ pts.size) :
+    (processPoints (pts.map Pt.reflY) true).convex = (processPoints pts true).convex ∧
+    (processPoints (pts.map Pt.reflY) true).clockwise = decide (Spec.area2 pts.toList > 0) ∧
+    (Spec.area2 pts.toList ≠ 0 →
+      (processPoints (pts.map Pt.reflY) true).clockwise = !(processPoints pts true).clockwise) :=
+  processPoints_flags_of_neg Pt.reflY reflY_inj
+    (fun a b e => by simp only [SeriesL.turn, Pt.reflY]; ring)
+    (fun a b => by simp only [Pt.reflY]; ring) pts h
+
+theorem processPoints_transpose (pts : Array Pt) (h : 3 ≤ pts.size) :
+    (processPoints (pts.map Pt.transpose) true).convex = (processPoints pts true).convex ∧
+    (processPoints (pts.map Pt.transpose) true).clockwise = decide (Spec.area2 pts.toList > 0) ∧
+    (Spec.area2 pts.toList ≠ 0 →
+      (processPoints (pts.map Pt.transpose) true).clockwise = !(processPoints pts true).clockwise) :=
+  processPoints_flags_of_neg Pt.transpose transpose_inj
+    (fun a b e => by simp only [SeriesL.turn, Pt.transpose]; ring)
+    (fun a b => by simp only [Pt.transpose]; ring) pts h
+
+end Geo
